@@ -416,10 +416,10 @@ def gen_reads_for(draw, case, sample, chrom, *, nreads, length=(40, 300), paired
             if e2 > s2 + 1:
                 spec["segments"].append([s2, e2])
         if draw(st.integers(0, 99)) < clip_share:
-            k1, k2 = draw(st.integers(0, 6)), draw(st.integers(0, 6))
+            k1, k2 = draw(st.sampled_from([0, 1, 2, 4, 6, 20])), draw(st.sampled_from([0, 1, 2, 4, 6, 20]))
             spec["clips"] = ["".join(draw(st.sampled_from(BASES)) for _ in range(k1)),
                              "".join(draw(st.sampled_from(BASES)) for _ in range(k2)),
-                             draw(st.sampled_from([0, 0, 3])), draw(st.sampled_from([0, 0, 2]))]
+                             draw(st.sampled_from([0, 0, 3, 30, 150])), draw(st.sampled_from([0, 0, 2, 50]))]
         if draw(st.integers(0, 99)) < eqx_share:
             spec["eqx"] = True
         specs.append(spec)
